@@ -13,7 +13,7 @@ PROPERTY = "C08"
 LEVEL = "fault_enumeration"
 META = {
     "text": "For every (network, calculation) pair of a finite menu the calculation is traced once with sys.monitoring and then re-run on a fresh deep copy once per crash point, an exception being injected at that function entry (thorough: every entry event and every executed line of the pairs that carry temporary state); natural failures (no slack, divergence, NaN parameter, missing short-circuit data) are enumerated as inputs. After every run, returned or raised, all pre-existing cells and row sets of all non-result tables are compared with a snapshot.",
-    "note": "LINE-level crash points that lie inside a `finally:` body (the restoring statements themselves) are excluded: a fault there is a fault in the cleanup, which no implementation can survive. Trusted: sys.monitoring delivers PY_START/LINE events deterministically (a divergence between trace and injected run is a harness error, exit 2). Crash points inside numba/C code and KeyboardInterrupt-like asynchronous faults are not modelled; new columns are tolerated (the statement speaks of pre-existing values and rows).",
+    "note": "LINE-level crash points on a `try:` header (executes nothing that can raise) or inside a `finally:` body (the restoring statements themselves) are excluded: a fault there is a fault in the cleanup, which no implementation can survive. Trusted: sys.monitoring delivers PY_START/LINE events deterministically (a divergence between trace and injected run is a harness error, exit 2). Crash points inside numba/C code and KeyboardInterrupt-like asynchronous faults are not modelled; new columns are tolerated (the statement speaks of pre-existing values and rows).",
     "technique": "exhaustive crash-point enumeration (fault injection at every function entry / line of the calculation pipeline) with a snapshot invariant",
     "design_ref": "DESIGN.md §3 E4, §4 C08",
 }
